@@ -13,6 +13,7 @@ import Kap.Proofs.C04Ref
 import Kap.Proofs.C04Point
 import Kap.Gen.C04Sigs
 import Kap.Model.C04Legacy
+import Kap.Model.C04Lambda
 import Kap.Gen.C04
 namespace Kap.Props.C04
 open Kap.C04
@@ -289,5 +290,31 @@ by 325c5ee; corpus/C04/unary-minus-on-string-recursion.ops). -/
 theorem legacy_retry_never_terminates :
     let l := Leaf.negLit (.str "a"); let r := Leaf.lit (.str "b")
     out (direct Gen.table [] .eq l r (initCache Gen.table .eq l r) 0) = none := by decide
+
+/-! ### Recorded finding: the state of a nested lambda node is shared between groups -/
+
+/-- Counterexample (finding `nested-lambda-state-shared`, corpus/C04/finding-nested-lambda-state-shared.ops):
+`(lambda: count()) > 1` asked once by group 0 and once by group 1 — the node's single counter makes group 1's
+FIRST point see 2. -/
+theorem nested_lambda_state_shared :
+    Lam.runShared 1 [0, 1] 0 = [false, true] ∧ Lam.runPerGroup 1 [0, 1] [] = [false, false] := by decide
+
+/-- `nested_lambda_partial`: with the excluding hypothesis of the finding — only ONE group ever asks — the nested
+lambda's counter is the group's own count, for every threshold and every number of points. (The full statement,
+without the hypothesis, is false: `nested_lambda_state_shared`.) -/
+theorem nested_lambda_partial (k : Int) (i : Nat) (ids : List Nat) (h : ∀ j ∈ ids, j = i) :
+    ∀ (n : Int) (cnts : List (Nat × Int)), Lam.count cnts i = n → Lam.runShared k ids n = Lam.runPerGroup k ids cnts := by
+  induction ids with
+  | nil => intro n cnts _; rfl
+  | cons j rest ih =>
+    intro n cnts hc
+    have hj : j = i := h j (List.mem_cons_self ..)
+    subst hj
+    simp only [Lam.runShared, Lam.runPerGroup, hc]
+    congr 1
+    exact ih (fun x hx => h x (List.mem_cons_of_mem _ hx)) (n + 1) _ (by simp [Lam.count])
+
+/-- non-vacuity of `nested_lambda_partial`: three points of one group. -/
+example : Lam.runShared 1 [4, 4, 4] 0 = [false, true, true] ∧ (∀ j ∈ [4, 4, 4], j = 4) := by decide
 
 end Kap.Props.C04
